@@ -59,9 +59,11 @@ macro_rules! presized {
             How::ReserveRegions => {
                 let mut t = <$R>::default();
                 if $populated {
-                    let $v = &batch[0];
-                    let $r = &mut t;
-                    let _ = $push;
+                    // pre-fill with the whole batch: the capacity then covers the announced batch, the spare room does not
+                    for $v in batch.iter() {
+                        let $r = &mut t;
+                        let _ = $push;
+                    }
                 }
                 t.reserve_regions(core::iter::once(&src));
                 t
@@ -92,7 +94,7 @@ fn str_batch() -> [String; 3] {
 pub fn c17_owned_reserve_regions() {
     presized!(OwnedRegion<u8>, How::ReserveRegions, false, byte_batch(), |r, v| r.push(v.as_slice()));
 }
-// @h prop=C17 tier=quick kind=proof inst="OwnedRegion<u8>" bounds="as above, target already populated with one item" desc="pre-sizing a populated region"
+// @h prop=C17 tier=quick kind=proof inst="OwnedRegion<u8>" bounds="as above, target already populated with the same three items (capacity covers the batch, spare room does not)" desc="pre-sizing a populated region reserves relative to its length, not its capacity"
 #[cfg_attr(kani, kani::proof, kani::unwind(10))]
 pub fn c17_owned_reserve_regions_populated() {
     presized!(OwnedRegion<u8>, How::ReserveRegions, true, byte_batch(), |r, v| r.push(v.as_slice()));
@@ -108,6 +110,7 @@ pub fn c17_owned_reserve_items() {
     let batch = byte_batch();
     let mut t = OwnedRegion::<u8>::default();
     let _ = t.push(batch[2].as_slice());
+    let _ = t.push(batch[0].as_slice());
     t.reserve_items(batch.iter().map(|b| b.as_slice()));
     let before = caps(&t);
     for b in batch.iter() {
